@@ -288,7 +288,10 @@ CLAIMED['C05'] = dict(
          'discharged (the represented node computed by the model of the representers). Closed form for '
          'plain data (C05_plain_data_roundtrip): for strings of any content, integers, booleans, None, lists '
          'and string-keyed dicts nested to any depth the description is derived from the model of the '
-         'representers, so load(represent v, T) = v holds with no precondition, for every class model. '
+         'representers, so load(represent v, T) = v holds with no precondition, for every class model; the '
+         'same for objects of simple classes (plain, no hooks, no _yatiml_extra, no registered bases or '
+         'subclasses) holding plain data or such objects to any depth (C05_simple_objects_roundtrip: '
+         'uniqueness of recognition at every node is derived, not assumed). '
          'The text layer is assumption A-text. On the real code load(dumps(v)) must be '
          'structurally equal for generated values of unambiguous class models (adversarial strings, '
          'non-finite floats, dates, paths, enums, string-like keys, extras, shared sub-objects, '
